@@ -249,7 +249,7 @@ impl Check for C04 {
 		}
 	}
 	fn rule(&self) -> String {
-		"full product: length 0..=8 (10 thorough) x every slice 0<=s<=e<=len x every start 0..=slice_len x {no loop} + every loop a<b<=slice_len x reverse x rate in {1,-1,2,0.5,-0.5,0.25,1.5} x (device,sound) rate in {(1,1),(2,1),(1,2),(3,2)} x chunk in {1,2,3,5}; index-coded frames, poison outside the slice; ideal transport + Hermite reference. Command family: seek_to / seek_by / set_loop_region at every callback index 0..=6 (pairs of commands in thorough). Engine pass: the sound rendered through AudioManager + Renderer on 4 kinds of host track x internal buffer {2,4,5} x 5 callback patterns x {forward, reverse, loop} x rate {1,2}: the device output is the source frame sequence, bit-exactly. states = distinct (visited index, fraction, loop, direction) of the reference transport; non-trivial = runs that produce non-silent audio".into()
+		"full product: length 0..=8 (10 thorough) x every slice 0<=s<=e<=len x every start 0..=slice_len x {no loop} + every loop a<b<=slice_len x reverse x rate in {1,-1,2,0.5,-0.5,0.25,1.5} x (device,sound) rate in {(1,1),(2,1),(1,2),(3,2)} x chunk in {1,2,3,5}; index-coded frames, poison outside the slice; ideal transport + Hermite reference. Command family: seek_to / seek_by / set_loop_region at every callback index 0..=6 (pairs of commands in thorough). Re-slice family: every (first slice, second slice incl. open end) on 6 and 10 frames. Engine pass: the sound rendered through AudioManager + Renderer on 4 kinds of host track x internal buffer {2,4,5} x 5 callback patterns x {forward, reverse, loop} x rate {1,2}: the device output is the source frame sequence, bit-exactly. states = distinct (visited index, fraction, loop, direction) of the reference transport; non-trivial = runs that produce non-silent audio".into()
 	}
 	fn assumptions(&self) -> Vec<String> {
 		vec![
@@ -527,7 +527,7 @@ fn command_family(tier: Tier, which: u64, ctx: &mut Ctx) {
 	for t in 0..=n + 1 {
 		cmds.push(Cmd::SeekTo(t));
 	}
-	for d in [-3i64, -1, 1, 2] {
+	for d in [-30i64, -3, -1, 1, 2] {
 		cmds.push(Cmd::SeekBy(d));
 	}
 	for l in [None, Some((0usize, 2usize)), Some((1, 4)), Some((n - 2, n))] {
@@ -729,6 +729,19 @@ fn run_commands(sc: &Scene, at: usize, c1: Cmd, second: Option<(usize, Cmd)>, ct
 				// relative to the no-seek timeline the playback is shifted by d (+-1)
 				if let (Some(Some(base)), Some(landed)) = (twin_heard.get(j0).copied(), heard.get(j0).copied()) {
 					let want = base + d * 1; // seek_by is in sound time: forward in the data
+					if want < 0 {
+						// a seek to before the start lands on the first frame (the sound restarts, it does not stop)
+						match landed {
+							Some(h) if h <= 1 => ctx.nontrivial_extra += 1,
+							other => {
+								ctx.fail(
+									"seek_by to before the start of the sound does not restart it at the first frame",
+									format!("{} no-seek frame {} shift {} heard {:?}; heard={:?}", desc(), base, d, other, &heard[cmd_frame.min(heard.len())..(cmd_frame + 8).min(heard.len())]),
+								);
+								return;
+							}
+						}
+					}
 					if want >= 0 && (want as usize) < n {
 						match landed {
 							Some(h) if (h - want).abs() <= 1 => {
@@ -791,7 +804,59 @@ fn run_commands(sc: &Scene, at: usize, c1: Cmd, second: Option<(usize, Cmd)>, ct
 // engine pass: the same sample accuracy seen at the device output, wherever the sound is hosted and however
 // the device cuts time into callbacks
 
+/// slicing data that is already sliced: positions are those of the whole audio, an open end means the end of the audio
+fn reslice(ctx: &mut Ctx) {
+	let info = MockInfoBuilder::new().build();
+	for len in [6usize, 10] {
+		let frames: Vec<Frame> = (0..len).map(code).collect();
+		for a in 0..len {
+			for b in a + 1..=len {
+				for c in 0..len {
+					for open in [true, false] {
+						let e = if open { len } else { (c + 2).min(len) };
+						if e <= c {
+							continue;
+						}
+						ctx.evals += 1;
+						let first = Region { start: PlaybackPosition::Samples(a), end: kira::sound::EndPosition::Custom(PlaybackPosition::Samples(b)) };
+						let second = Region { start: PlaybackPosition::Samples(c), end: if open { kira::sound::EndPosition::EndOfAudio } else { kira::sound::EndPosition::Custom(PlaybackPosition::Samples(e)) } };
+						let data = rig::static_data(1, frames.clone()).slice(first).slice(second);
+						let desc = || format!("{} frames, .slice({}..{}) then .slice({}..{})", len, a, b, c, if open { "".to_string() } else { e.to_string() });
+						if data.num_frames() != e - c {
+							ctx.fail("slicing already sliced data: num_frames() is not the length of the last slice", format!("{}: num_frames() = {}, expected {}", desc(), data.num_frames(), e - c));
+							continue;
+						}
+						let (mut sound, _h) = match data.into_sound() {
+							Ok(x) => x,
+							Err(_) => continue,
+						};
+						let mut out = vec![Frame::ZERO; len + 6];
+						for f in out.iter_mut() {
+							let mut one = [Frame::ZERO; 1];
+							sound.on_start_processing();
+							sound.process(&mut one, 1.0, &info);
+							*f = one[0];
+						}
+						for (i, f) in out.iter().enumerate() {
+							let want = if c + i < e { code(c + i) } else { Frame::ZERO };
+							if f.left != want.left || f.right != want.right {
+								ctx.fail("slicing already sliced data: the sound does not play the frames of the last slice", format!("{}: output frame {} = {:?}, expected {:?}", desc(), i, f, want));
+								break;
+							}
+						}
+						ctx.nontrivial_extra += 1;
+					}
+				}
+			}
+		}
+	}
+	ctx.state(hash64(&"reslice"));
+}
+
 fn engine_pass(host: usize, ibs: usize, ctx: &mut Ctx) {
+	if host == 0 && ibs == 2 {
+		reslice(ctx);
+	}
 	use crate::rig;
 	use kira::track::{MainTrackBuilder, SpatialTrackBuilder, TrackBuilder};
 	const SRE: u32 = 8;
